@@ -1278,6 +1278,9 @@ def run(ctx):
         for k, v in g['tags'].items():
             kk = '%s=%s' % (k, v)
             stats['tags'][kk] = stats['tags'].get(kk, 0) + 1
+        npl = sum(m['config']['poi'] == POILESS for w in (g['env'].get('l'), g['env'].get('r')) if w for m in w['measurements'])
+        if npl:
+            stats['tags']['poiless-measurements'] = stats['tags'].get('poiless-measurements', 0) + npl
         all_results.append(results)
     ctx.log('implementation: %d operations on %d groups' % (stats['ops'], len(groups)))
     if not ctx.quick:
